@@ -9,6 +9,22 @@ use byteorder::{BigEndian, ReadBytesExt, WriteBytesExt};
 use crate::error::{Error, Result};
 use crate::lsm::CoreInner;
 
+/// Hard-links `source` at `dest`, copying where links are not possible. A file that
+/// is already at `dest` is replaced, never written through: it can be another link
+/// to `source` itself (a checkpoint taken again into the same directory), and
+/// copying onto it would truncate both.
+fn link_or_copy(source: &Path, dest: &Path) -> std::io::Result<()> {
+	match fs::remove_file(dest) {
+		Ok(()) => {}
+		Err(e) if e.kind() == std::io::ErrorKind::NotFound => {}
+		Err(e) => return Err(e),
+	}
+	if fs::hard_link(source, dest).is_err() {
+		fs::copy(source, dest)?;
+	}
+	Ok(())
+}
+
 /// Recursively copies a directory and all its contents
 fn copy_dir_all(src: &Path, dst: &Path) -> std::io::Result<()> {
 	fs::create_dir_all(dst)?;
@@ -296,9 +312,7 @@ impl DatabaseCheckpoint {
 			let dest_path = dest_dir.join(filename);
 
 			// Create hard link if possible (faster), otherwise copy
-			if fs::hard_link(&source_path, &dest_path).is_err() {
-				fs::copy(&source_path, &dest_path).map_err(|e| Error::Io(Arc::new(e)))?;
-			}
+			link_or_copy(&source_path, &dest_path).map_err(|e| Error::Io(Arc::new(e)))?;
 
 			// Add to size count
 			if let Ok(metadata) = fs::metadata(&dest_path) {
@@ -450,9 +464,7 @@ impl DatabaseCheckpoint {
 
 			if source_path.is_file() {
 				// Create hard link if possible, otherwise copy
-				if fs::hard_link(&source_path, &dest_path).is_err() {
-					fs::copy(&source_path, &dest_path).map_err(|e| Error::Io(Arc::new(e)))?;
-				}
+				link_or_copy(&source_path, &dest_path).map_err(|e| Error::Io(Arc::new(e)))?;
 
 				if let Ok(metadata) = fs::metadata(&dest_path) {
 					total_size += metadata.len();
